@@ -8,7 +8,7 @@ MANIFEST = dict(
    note="PARTIAL: holds on the Representable fragment only (see notes/C07.md for the excluded classes, each a demonstrated defect of the pinned tree). Lazy is modelled at the top of a schema only and non-recursive; discriminated unions, string formats, Default/Prefault, Map, Set, Struct, File, Pipe/Transform are not modelled (the list is a checked fact: c07_unmodelled_gap); user regexes come from a five-entry table with hand-written meanings; registry IDs and reused:'ref' documents are compared after inlining the emitted $ref nodes (the raw document is what the independent validator judges). Instances: ASCII strings, numbers that are multiples of 1/4 below 2^51. Trusted: Lean kernel; the hand-written jsValid (cross-checked on every generated case against kaptinlin/jsonschema on the real document); the Go harness, schema-directed embedding and comparer. The model is validated on generated cases, not for all inputs.",
    design="DESIGN.md §5 C07")
 
-MODULES = ["Gozod.Proofs.C07", "Gozod.Proofs.C07Lazy", "Gozod.Proofs.C07Refs", "Gozod.Proofs.C07Cases"]
+MODULES = ["Gozod.Proofs.C07", "Gozod.Proofs.C07Lazy", "Gozod.Proofs.C07Refs", "Gozod.Proofs.C07Rec", "Gozod.Proofs.C07Cases"]
 GEN = os.path.join(C.LEAN, "Gozod", "Gen", "ToJsonCases.lean")
 THEOREMS = [
     "Gozod.C07.c07_equiv_partial", "Gozod.C07.c07_pres", "Gozod.C07.c07_sound", "Gozod.C07.c07_complete",
@@ -34,6 +34,9 @@ THEOREMS = [
     "Gozod.C07.erase_same", "Gozod.C07.mapOf_equiv", "Gozod.C07.witness_map_key_dropped",
     # $defs / $ref bookkeeping of convert / convertLazy / toJSONSchemaSingle (Model/JsonSchemaRefs.lean)
     "Gozod.C07.inv_convert", "Gozod.C07.c07_refs_resolve", "Gozod.C07.c07_refs_table_resolves",
+    # recursive schemas whose Lazy cycle does not close at the root (Model/JsonSchemaRec.lean)
+    "Gozod.C07.validVF_eq", "Gozod.C07.c07_rec_equiv", "Gozod.C07.c07_rec_sound", "Gozod.C07.c07_rec_complete", "Gozod.C07.c07_rec_root_legacy",
+    "Gozod.C07.witness_lazy_ref_root_field", "Gozod.C07.witness_lazy_ref_root_slice",
     # over the tables regenerated from jsonschema/to.go + core/constants.go (Gen/ToJsonCases.lean)
     "Gozod.C07.c07_codes_covered", "Gozod.C07.c07_cases_partition", "Gozod.C07.c07_modelled_branches", "Gozod.C07.c07_tail_is_applyBag",
     "Gozod.C07.c07_unmodelled_gap", "Gozod.C07.c07_unmodelled_rest", "Gozod.C07.c07_default_unrepresentable",
@@ -153,7 +156,7 @@ def run(res):
         terr = translate(res)
         if terr:
             C.tie_broken(res, "translator C07 (jsonschema/to.go -> Gen/ToJsonCases.lean)", terr)
-            ok, detail = C.prove(res, MODULES[:3], [t for t in THEOREMS if t not in CASES_THEOREMS])   # Proofs/C07.lean + C07Lazy.lean + C07Refs.lean
+            ok, detail = C.prove(res, MODULES[:4], [t for t in THEOREMS if t not in CASES_THEOREMS])   # everything but C07Cases (over the regenerated tables)
         else:
             ok, detail = C.prove(res, MODULES, THEOREMS)
     if not ok:
